@@ -78,6 +78,8 @@ pub struct Script {
     pub ephemeral_name: String,
     /// write every reply in chunks of this many bytes (one TLS record each), 0 = whole
     pub chunk: usize,
+    /// (connection index, real milliseconds): delay the commit reply of that session (a slow run)
+    pub slow_commit: Vec<(usize, u64)>,
 }
 
 #[derive(Clone, Debug)]
@@ -307,6 +309,11 @@ async fn serve(mut s: tokio_rustls::server::TlsStream<tokio::net::TcpStream>, se
                 }
                 "close-configuration" | "close-session" => {}
                 other => sh.lock().unwrap().unmodelled.push(format!("operation <{other}>")),
+            }
+        }
+        if op == "commit-configuration" {
+            if let Some((_, ms)) = script.slow_commit.iter().find(|(c, _)| *c == session) {
+                tokio::time::sleep(Duration::from_millis(*ms)).await;
             }
         }
         // ---- the reply
